@@ -15,7 +15,7 @@ CLAIM = dict(
          "constant to itself when the window sum is non-zero, which is proved for every positive kernel; reads only the "
          "window on the line through the output point and is linear over functions of the other axes; passes along "
          "different axes commute; dataSmooth equals the composition of the smoothers of all energy axes in ANY order "
-         "(explicitly for two axes), is linear, preserves constants and is the identity when all smoothers are void; "
+         "(explicitly for two axes), is linear and homogeneous for data of ANY magnitude, preserves constants and is the identity when all smoothers are void; "
          "get_smoother returns void exactly for missing energy/smear, smear<=0 or <2 energies; after ANY history of "
          "reads of the memoised dataSmooth, in-place add() calls and derivations of new results from old ones (* / mul_array "
          "+ - transform, loaded copies: anything built by the constructor) EVERY live result's dataSmooth is the smoothing of "
@@ -35,7 +35,7 @@ TRUSTED = [
     "StaticCalculator passing its smoother to the result",
     "numpy transpose/tensordot/sum by their mathematical contract; floating point compared within derived rounding bounds",
 ]
-RULE = ("arrays of 1-4 dimensions with odd/even/size-1/size-2 axes, real and complex, smoothed along every axis by "
+RULE = ("data of every magnitude from 2^-100 to 2^60 (results in any units; no absolute threshold), arrays of 1-4 dimensions with odd/even/size-1/size-2 axes, real and complex, smoothed along every axis by "
         "Fermi-Dirac, Gaussian, void and asymmetric integer-table kernels with half-widths 0..NE+2 (windows truncated on "
         "both sides); EnergyResults with 1-3 energy axes and ranks 0-3; non-trivial = at least one non-void smoother "
         "with NE1 >= 1 acts on an axis of length >= 2; distinct = distinct (operation, shape, data, kernels)")
@@ -134,7 +134,18 @@ def rand_shape(rng, ndim, mandatory=None):
     return sh
 
 
-def rand_data(rng, shape, cplx, integer=False):
+MAGNITUDES = [0, 0, 0, 0, 0, -27, -30, -34, -40, -60, -100, 20, 60]   # powers of two: 1e-8 ~ 2^-26.6
+
+
+def rand_data(rng, shape, cplx, integer=False, mag=None):
+    """dyadic data of a random overall magnitude 2^mag (from 1e-30 to 1e18): smoothing is homogeneous, so the
+    property must hold for results in any units; scaling by a power of two keeps every comparison exact"""
+    out = _rand_data(rng, shape, cplx, integer)
+    mag = rng.choice(MAGNITUDES) if mag is None else mag
+    return out * 2.0 ** mag
+
+
+def _rand_data(rng, shape, cplx, integer=False):
     n = int(np.prod(shape))
     if integer:
         re = np.array([rng.randint(-9, 9) for _ in range(n)], dtype=float)
@@ -187,7 +198,7 @@ def corr(ctx):
             ctx.count(f"corr.call.ndim={ndim}")
             ctx.count("corr.call.bit-exact" if exact else "corr.call.rounding")
             ctx.count(f"corr.call.NE1={'>=NE' if s.NE1 >= s.NE else s.NE1}")
-            tol = 0 if exact else 16 * (2 * s.NE1 + 3) * eps * max(1.0, np.abs(A).max())
+            tol = 0 if exact else 16 * (2 * s.NE1 + 3) * eps * np.abs(A).max()
             for Ap, gp in zip(parts(A), parts(got)):
                 lines.append(f"smooth {ints(shape)} {rats(Ap.reshape(-1))} {axis} {int(s.NE1)} {rats(s.smt)}")
                 checks.append(("AbstractSmoother.__call__", gp.reshape(-1), exact, tol, case))
@@ -217,7 +228,7 @@ def corr(ctx):
             ctx.count("corr.dataSmooth.bit-exact" if exact else "corr.dataSmooth.rounding")
             ctx.count(f"corr.dataSmooth.nonvoid={len(nonvoid)}")
             width = sum(2 * int(s.NE1) + 3 for s in sms if s is not None and not isinstance(s, VoidSmoother))
-            tol = 0 if exact else 16 * (width + 2) * eps * max(1.0, np.abs(A).max())
+            tol = 0 if exact else 16 * (width + 2) * eps * np.abs(A).max()
             slots = " ".join(slot_tokens(s) for s in sms)
             for Ap, gp in zip(parts(A), parts(got)):
                 lines.append(f"datasmooth {ints(shape)} {rats(Ap.reshape(-1))} {nE} {slots}")
@@ -284,7 +295,7 @@ def corr(ctx):
             ctx.count("corr.history")
             ctx.count(f"corr.history.objects={len(objs)}")
             width = sum(2 * int(s.NE1) + 3 for s in sms if s is not None and not isinstance(s, VoidSmoother))
-            tol = 16 * (width + 2) * eps * max(1.0, float(np.abs(got).max()) * 4)
+            tol = 16 * (width + 2) * eps * float(max(np.abs(got).max(), max(np.abs(o.data).max() for o, _ in objs))) * 4
             slots = " ".join(slot_tokens(s) for s in sms)
             lines.append(f"heap {ints(shape)} {rats(A.reshape(-1))} {';'.join(toks)} {nE} {slots}")
             checks.append(("dataSmooth of every live object after a history", got, False, tol, case))
@@ -410,7 +421,7 @@ def ref_apply(M, A, axis):
 
 
 def close(a, b, scale, n_ops):
-    tol = 64 * (n_ops + 4) * 2.0 ** -52 * max(1.0, scale)
+    tol = 64 * (n_ops + 4) * 2.0 ** -52 * scale      # relative to the magnitude of the data, no absolute floor
     return a.shape == b.shape and (a.size == 0 or np.abs(a - b).max() <= tol), tol
 
 
@@ -461,8 +472,13 @@ def oracle(ctx, scale):
             ok, tol = close(lin, c * got + d * s(B, axis=axis), amax * 8, width)
             if not ok:
                 ctx.fail("smoother is not linear", dict(case, B=B, c=c, d=d))
+            # (b') homogeneous: scaling the data by a power of two (any units) scales the output exactly
+            for e2 in (-35, -50, 40):
+                if not np.array_equal(s(A * 2.0 ** e2, axis=axis), got * 2.0 ** e2):
+                    ctx.fail(f"smoother is not homogeneous: s(A*2^{e2}) != s(A)*2^{e2}", dict(case, exponent=e2))
+                    break
             # (c) constants
-            cst = rng.choice([1.0, -2.5, 7.0])
+            cst = rng.choice([1.0, -2.5, 7.0]) * 2.0 ** rng.choice(MAGNITUDES)
             C = np.full(shape, cst, dtype=A.dtype)
             ok, tol = close(s(C, axis=axis), C, abs(cst), width)
             if not ok:
@@ -551,6 +567,12 @@ def oracle(ctx, scale):
                 comb, want = res * 2.0 + res2, 2.0 * got + res2.dataSmooth
             else:
                 comb, want = res - res2 * 0.5, got - 0.5 * res2.dataSmooth
+            for e2 in (-35, -60, 30):
+                sc = res * 2.0 ** e2
+                if not np.array_equal(sc.dataSmooth, got * 2.0 ** e2):
+                    ctx.fail(f"dataSmooth is not homogeneous: (res*2^{e2}).dataSmooth != res.dataSmooth*2^{e2}",
+                             dict(case, exponent=e2))
+                    break
             ok, tol = close(comb.dataSmooth, want, 4 * max(np.abs(A).max(), np.abs(B).max()), width)
             if not ok:
                 ctx.fail("dataSmooth of a linear combination of results is not the combination of their dataSmooth",
